@@ -530,6 +530,14 @@ package index
 //@   pure
 //@   ensures err == nil ==> r != nil
 
+// segCount(seg): the number of documents a segment holds (a function of the segment object)
+//@ spec fn segCount(seg ref) uint64
+//@ func github.com/blugelabs/bluge_segment_api.Segment.Count(recv) (c)
+//@   interface
+//@   props C01
+//@   pure
+//@   ensures c == segCount(iref(recv))
+
 //@ func Writer.introduceSegment(next, introduceSnapshotEpoch) (err)
 //@   props C01
 //@   requires s != nil && next != nil
@@ -540,4 +548,5 @@ package index
 //@   at call AddRef: assert [earlier-deletes-are-kept] forall v uint32 :: (root.segment[i].deleted != nil && bmHas[root.segment[i].deleted][v]) ==> (newss.deleted != nil && bmHas[newss.deleted][v])
 //@   at call AddRef: assert [the-batch-deletes-are-applied] forall v uint32 :: bmHas[delta][v] ==> (newss.deleted != nil && bmHas[newss.deleted][v])
 //@   at call replaceRoot: assert [new-root-carries-the-new-epoch] newSnapshot.epoch == introduceSnapshotEpoch
+//@   at call Persisted: assert [a-segment-is-left-out-only-when-no-document-of-it-is-live] (len(newSnapshot.segment) > 0 && newSnapshot.segment[len(newSnapshot.segment) - 1] == newss) || int64(uint64(segCount(iref(newss.segment.Segment)) - ite(newss.deleted != nil, bmCard(newss.deleted), 0))) <= 0
 //@   at call replaceRoot: assert [the-batch-segment-comes-last] next.data != nil ==> (len(newSnapshot.segment) > 0 && newSnapshot.segment[len(newSnapshot.segment) - 1].id == next.id && newSnapshot.segment[len(newSnapshot.segment) - 1].segment == next.data && newSnapshot.segment[len(newSnapshot.segment) - 1].deleted == nil)
